@@ -141,7 +141,7 @@ def check_pools(pools):
         if e["f32x"] != (inr and f == v) or e["f32r"] != inr or repr(v) != e["txt"]:
             bad.append(e)
     for e in pools["str"]:
-        if e["len"] != len(e["txt"]) or e["blank"] != (" " in e["txt"]) or not re.fullmatch(r"[A-Za-z0-9 _.\-]+", e["txt"]):
+        if e["len"] != len(e["txt"]) or e["blank"] != (" " in e["txt"]) or not re.fullmatch(r"[A-Za-z0-9 _.,\-]+", e["txt"]):
             bad.append(e)
     if bad:
         raise C.MachineryError(f"Export.tla: pool attributes do not describe the pool text: {bad}")
